@@ -380,6 +380,23 @@ CHECKS["C08"] = {
     "assumptions": ["cooperative goroutines; channels as FIFO queues", "clock: time.Now() in watcher.go/reobserve.go redirected to the harness clock; UnixMilli of a clock reading is its own non-decreasing variable",
                     "encoding/json.Marshal (log fields) opaque; zap/prometheus no-ops; pkg/alephium loaded through the stripped-p2p.Run overlay"],
 }
+CHECKS["C09"] = {
+    "runs": [
+        {"pkg": "./pkg/alephium", "entry": "VerifC09_Fetch", "reach": ["delivered", "skipped", "end"], "opts": _ALPH_OPTS,
+         "shards": {"quick": ["logsize=1", "logsize=2;mc=0", "logsize=2;mc=1,2;kind=0,4", "logsize=2;mc=3,4;kind=0,4"] + ["logsize=3;mc=0;kind=0,2;initial=%d;pagesize=%d" % (i, p) for i in (0, 1) for p in (1, 2)],
+                    "thorough": ["logsize=1", "logsize=2"] + ["logsize=3;mc=%d;kind#0=%d" % (m, k) for m in (0, 1, 4) for k in range(5)]},
+         "timeout": {"quick": 2400, "thorough": 30000}},
+        # the hand-over from fetched to confirmed: junk (foreign-caller) events next to pending bridge events never stop the loop
+        {"pkg": "./pkg/alephium", "entry": "VerifC08_Polling", "reach": ["forwarded", "end"], "opts": _ALPH_OPTS,
+         "shards": {"quick": ["mainnet=0;ticks=1;events=1,2", "mainnet=0;ticks=2;events=2;bridge#0=0;bridge#1=1;apiError=0", "mainnet=0;ticks=2;events=2;bridge#0=1;bridge#1=0;apiError=0"]},
+         "timeout": {"quick": 2400, "thorough": 30000}},
+    ],
+    "bounds": {"quick": {"hand-over": "C08's polling harness with a foreign-caller event next to a bridge event (no API errors): the loop keeps running", "fetch": "the real fetchEvents goroutine, three polls, against a log of 1..3 events whose kinds are {bridge, foreign caller, wrong field count, out-of-range number, attestation-shaped naming a contract whose three metadata calls succeed / fail in each position / return one result}; 0..1 events exist at start; every other event becomes visible at an arbitrary call (count or page); page size 1..3 chosen per request",
+                         "unwind": 3000},
+               "thorough": {"fetch": "all kind combinations for 3 events"}},
+    "outside": "node API errors (they legitimately end the loop; covered in C08's polling/re-observation harnesses); the hand-over from fetched to confirmed (C08 polling harness); supervisor restarts (C18); HTTP and JSON layers (hooked Client methods)",
+    "assumptions": CHECKS["C08"]["assumptions"] + ["time.NewTicker in watcher.go redirected to a harness ticker that fires when the harness says so"],
+}
 
 # generated harness parts per (module, package): regenerated from /repo on every run for every check that loads the package
 GENERATORS = {("node", "./pkg/vaa"): [_gen_c04], ("node", "./pkg/processor"): [_gen_c07], ("node", "./pkg/alephium"): [_gen_c11], ("node", "./cmd/guardiand"): [_gen_c15]}
